@@ -40,6 +40,7 @@ EXTENDS Integers, Sequences, FiniteSets, TLC, Json
 TraceLog == ndJsonDeserialize("trace.ndjson")
 
 VARIABLES l,
+          seenT,   \* tag (the content the model says was WRITTEN) -> <<roots, line, tags>> : first root triple computed under it
           seen,    \* dump -> <<roots, line, tags>> : first root triple computed on an object showing that dump
           frozen,  \* dumps the frozen objects of the current behaviour showed when they were frozen
           unc,     \* operation kinds since the last commit of the current behaviour
@@ -52,7 +53,7 @@ VARIABLES l,
           clive,   \* <<live dump of the last Commit / Reload / Restart of the main object>> or <<>>
           flive,   \* <<live dump at the commit whose roots were flushed last>> or <<>>
           viol, fired
-vars == <<l, seen, frozen, unc, taint, txopen, mtag, ftags, chist, clive, flive, viol, fired>>
+vars == <<l, seenT, seen, frozen, unc, taint, txopen, mtag, ftags, chist, clive, flive, viol, fired>>
 
 Comp == <<"accounts", "validators", "stat", "index", "queue", "records", "relations", "error">>
 Err(d) == d[8] # ""
@@ -125,7 +126,7 @@ MainTags == mtag \cup (IF taint THEN {"tainted"} ELSE {})
 ObjTags(k) == IF k = 1 THEN MainTags ELSE IF (k - 1) \in DOMAIN ftags THEN ftags[k - 1] ELSE {}
 RootObs(e) ==
    (IF e.ev = "Reload" /\ Blind(e) THEN { <<e.re, e.roots, MainTags>> } ELSE {})
-   \cup (IF e.ev \in {"Root", "Commit", "Reload"} /\ "live" \in DOMAIN e THEN { <<e.live, e.roots, MainTags>>, <<e.pre, e.roots, MainTags>> } ELSE {})
+   \cup (IF e.ev \in {"Root", "Commit", "Reload"} /\ "live" \in DOMAIN e THEN ({ <<e.live, e.roots, MainTags>> } \cup (IF "pre" \in DOMAIN e THEN { <<e.pre, e.roots, MainTags>> } ELSE {})) ELSE {})
    \* (the dump taken BEFORE the root computation is content too: what was written is what the getters showed then)
    \cup (IF "endpre" \in DOMAIN e THEN { <<e.endpre[k], e.endroots[k], ObjTags(k)>> : k \in DOMAIN e.endroots } ELSE {})
    \cup (IF "endroots" \in DOMAIN e THEN { <<e.enddumps[k], e.endroots[k], ObjTags(k)>> : k \in DOMAIN e.endroots } ELSE {})
@@ -135,9 +136,17 @@ SameRoots(e) ==
    { <<"SameContentSameRoots", RootDiff(seen[o[1]][1], o[2]) \cup o[3] \cup seen[o[1]][3], l, seen[o[1]][2]>> :
         o \in { p \in Usable(e) : p[1] \in DOMAIN seen /\ seen[p[1]][1] # p[2] } }
 
-ZeroFired == [BlindCopies |-> 0, OldReopens |-> 0, BothSides |-> 0, DiskReopens |-> 0, Reopens |-> 0, CopyEqs |-> 0, Indeps |-> 0, RootObsN |-> 0, RootsCompared |-> 0, Failures |-> 0, Contents |-> 0]
+\* the same clause with the content AS WRITTEN as the key: the generator tags every root computation with the content the model
+\* says has been written; two real objects written with the same content must have the same real roots, whatever they show
+TagObs(e) == IF e.ev \in {"Root", "Commit", "Reload"} /\ "roots" \in DOMAIN e /\ "tag" \in DOMAIN e.args /\ e.args.tag # ""
+             THEN { <<e.args.tag, e.roots, MainTags>> } ELSE {}
+SameRootsT(e) ==
+   { <<"SameContentSameRoots", RootDiff(seenT[o[1]][1], o[2]) \cup {"written"} \cup o[3] \cup seenT[o[1]][3], l, seenT[o[1]][2]>> :
+        o \in { p \in TagObs(e) : p[1] \in DOMAIN seenT /\ seenT[p[1]][1] # p[2] } }
 
-Init == /\ l = 1 /\ seen = <<>> /\ frozen = <<>> /\ unc = {} /\ taint = FALSE /\ txopen = FALSE /\ mtag = {} /\ ftags = <<>>
+ZeroFired == [TagObsN |-> 0, TagsCompared |-> 0, BlindCopies |-> 0, OldReopens |-> 0, BothSides |-> 0, DiskReopens |-> 0, Reopens |-> 0, CopyEqs |-> 0, Indeps |-> 0, RootObsN |-> 0, RootsCompared |-> 0, Failures |-> 0, Contents |-> 0]
+
+Init == /\ l = 1 /\ seenT = <<>> /\ seen = <<>> /\ frozen = <<>> /\ unc = {} /\ taint = FALSE /\ txopen = FALSE /\ mtag = {} /\ ftags = <<>>
         /\ chist = <<>> /\ clive = <<>> /\ flive = <<>>
         /\ viol = {} /\ fired = ZeroFired
 
@@ -153,15 +162,16 @@ Step ==
       IF e.ev \in {"reset", "abort"}
       THEN /\ frozen' = <<>> /\ unc' = {} /\ taint' = FALSE /\ txopen' = FALSE /\ mtag' = {} /\ ftags' = <<>>
            /\ chist' = <<>> /\ clive' = <<>> /\ flive' = <<>>
-           /\ UNCHANGED <<seen, viol, fired>>
+           /\ UNCHANGED <<seenT, seen, viol, fired>>
       ELSE IF "panic" \in DOMAIN e
       THEN /\ viol' = viol \cup Fresh({ <<"Readable", {e.ev} \cup Tags, l, 0>> })
            /\ fired' = [fired EXCEPT !.Failures = @ + 1]
-           /\ UNCHANGED <<seen, frozen, unc, taint, txopen, mtag, ftags, chist, clive, flive>>
-      ELSE LET C == Reopen(e) \cup BlindCopy(e) \cup DiskReopen(e) \cup OldReopen(e) \cup CopyEq(e) \cup Indep(e) \cup SameRoots(e)
+           /\ UNCHANGED <<seenT, seen, frozen, unc, taint, txopen, mtag, ftags, chist, clive, flive>>
+      ELSE LET C == Reopen(e) \cup BlindCopy(e) \cup DiskReopen(e) \cup OldReopen(e) \cup CopyEq(e) \cup Indep(e) \cup SameRoots(e) \cup SameRootsT(e)
                U == Usable(e) IN
            /\ viol' = viol \cup Fresh(C)
            /\ seen' = AddAll(seen, U)
+           /\ seenT' = AddAll(seenT, TagObs(e))
            /\ frozen' = CASE e.ev = "Copy" -> Append(frozen, e.copy)
                           [] e.ev = "CopySwap" /\ Blind(e) -> Append(frozen, BlindDump)
                           [] e.ev = "Reload" /\ Blind(e) /\ "orig" \in DOMAIN e /\ Len(frozen) > 0 -> [frozen EXCEPT ![Len(frozen)] = e.orig]
@@ -185,10 +195,12 @@ Step ==
                             [] e.ev \in {"Reload", "Restart"} -> mtag \ {"copied"}
                             [] OTHER -> mtag
            /\ txopen' = CASE e.ev \in {"Finalise", "Root", "Commit", "Reload", "CopySwap", "End", "Restart"} -> FALSE
-                           [] e.ev \in {"Copy", "Flush", "GC", "ReloadOld", "AddRecordOther", "ReadRecord"} -> txopen
+                           [] e.ev \in {"Copy", "Flush", "GC", "ReloadOld", "AddRecordOther", "ReadRecord", "ReadComp"} -> txopen
                            [] OTHER -> TRUE
            /\ taint' = (taint \/ (e.ev = "CopySwap" /\ CopyEq(e) # {}) \/ Reopen(e) # {} \/ BlindCopy(e) # {} \/ DiskReopen(e) # {} \/ OldReopen(e) # {})
-           /\ fired' = [fired EXCEPT !.BlindCopies = @ + (IF e.ev = "Reload" /\ Blind(e) /\ "orig" \in DOMAIN e THEN 1 ELSE 0),
+           /\ fired' = [fired EXCEPT !.TagObsN = @ + Cardinality(TagObs(e)),
+                                     !.TagsCompared = @ + Cardinality({ o \in TagObs(e) : o[1] \in DOMAIN seenT }),
+                                     !.BlindCopies = @ + (IF e.ev = "Reload" /\ Blind(e) /\ "orig" \in DOMAIN e THEN 1 ELSE 0),
                                      !.OldReopens = @ + (IF e.ev = "ReloadOld" /\ "re" \in DOMAIN e THEN 1 ELSE 0),
                                      !.BothSides = @ + (IF e.ev = "AddRecordOther" /\ "main" \in DOMAIN e THEN 1 ELSE 0),
                                      !.DiskReopens = @ + (IF (e.ev = "Flush" /\ clive # <<>>) \/ (e.ev = "Restart" /\ flive # <<>>) THEN 1 ELSE 0),
